@@ -116,6 +116,7 @@ def run_job(job):
                     # a NULL element (squared norm 0, stored as the zero multivector): its norm is 0
                     xf = MultiVector.fromkeysvalues(alg, keys, [float(v) for v in vals])
                     base['x'] = ratmv(xq)
+                    base['null'] = True
                     try:
                         base['r'] = ratmv(stored(xf).norm())
                     except K.EncodeError:
